@@ -113,6 +113,8 @@ impl Ord for Tok {
 
 mod d {
     pub const FLAVOUR: &str = "digraph";
+    macro_rules! conc_step { ($nodes:expr, $progs:expr, $sched:expr) => {{ let _ = ($nodes, $progs, $sched); String::from("unsupported") }}; }
+
     macro_rules! edge_nth { ($n:expr, $p:expr) => { $n.iter_out().nth($p) }; }
     macro_rules! pre_nodes { ($n:expr) => { $n.preorder().search_nodes() }; }
     macro_rules! post_nodes { ($n:expr) => { $n.postorder().search_nodes() }; }
@@ -148,6 +150,8 @@ mod d {
 }
 mod sd {
     pub const FLAVOUR: &str = "sync_digraph";
+    macro_rules! conc_step { ($nodes:expr, $progs:expr, $sched:expr) => { conc::run_sched($nodes, $progs, $sched) }; }
+
     macro_rules! edge_nth { ($n:expr, $p:expr) => { $n.iter_out().nth($p) }; }
     macro_rules! pre_nodes { ($n:expr) => { $n.preorder().search_nodes() }; }
     macro_rules! post_nodes { ($n:expr) => { $n.postorder().search_nodes() }; }
@@ -185,10 +189,31 @@ mod sd {
         let _ = n.is_root() || n.is_leaf() || n.is_orphan();
         let _ = n.is_connected(&2);
     }
+
+    fn conc_query(op: &str, n: &Node<u64, i64, u64>) -> String {
+        match op {
+            "deg" => format!("{}", n.out_degree()),
+            "ideg" => format!("{}", n.in_degree()),
+            "orph" => format!("{}", n.is_orphan() as u8),
+            "iter" => format!("[{}]", n.iter_out().map(|e| format!("({}>{}:{})", e.source().key(), e.target().key(), e.value())).collect::<Vec<_>>().join("")),
+            "iterin" => format!("[{}]", n.iter_in().map(|e| format!("({}>{}:{})", e.source().key(), e.target().key(), e.value())).collect::<Vec<_>>().join("")),
+            other => format!("unknown-call {}", other),
+        }
+    }
+    fn conc_snap(n: &Node<u64, i64, u64>) -> String {
+        let mut s = format!("[{} out", n.key());
+        for e in n.iter_out() { s.push_str(&format!("({}>{}:{})", e.source().key(), e.target().key(), e.value())); }
+        s.push_str(" in");
+        for e in n.iter_in() { s.push_str(&format!("({}>{}:{})", e.source().key(), e.target().key(), e.value())); }
+        s.push(']');
+        s
+    }
     include!("conc.rs");
 }
 mod u {
     pub const FLAVOUR: &str = "ungraph";
+    macro_rules! conc_step { ($nodes:expr, $progs:expr, $sched:expr) => {{ let _ = ($nodes, $progs, $sched); String::from("unsupported") }}; }
+
     macro_rules! edge_nth { ($n:expr, $p:expr) => { $n.iter().nth($p) }; }
     macro_rules! pre_nodes { ($n:expr) => { $n.order().pre().search_nodes() }; }
     macro_rules! post_nodes { ($n:expr) => { $n.order().post().search_nodes() }; }
@@ -224,6 +249,8 @@ mod u {
 }
 mod su {
     pub const FLAVOUR: &str = "sync_ungraph";
+    macro_rules! conc_step { ($nodes:expr, $progs:expr, $sched:expr) => { conc::run_sched($nodes, $progs, $sched) }; }
+
     macro_rules! edge_nth { ($n:expr, $p:expr) => { $n.iter().nth($p) }; }
     macro_rules! pre_nodes { ($n:expr) => { $n.order().pre().search_nodes() }; }
     macro_rules! post_nodes { ($n:expr) => { $n.order().post().search_nodes() }; }
@@ -244,6 +271,21 @@ mod su {
         let _ = n.degree();
         let _ = n.is_orphan();
         let _ = n.is_connected(&2);
+    }
+
+    fn conc_query(op: &str, n: &Node<u64, i64, u64>) -> String {
+        match op {
+            "deg" => format!("{}", n.degree()),
+            "orph" => format!("{}", n.is_orphan() as u8),
+            "iter" => format!("[{}]", n.iter().map(|e| format!("({}>{}:{})", e.source().key(), e.target().key(), e.value())).collect::<Vec<_>>().join("")),
+            other => format!("unknown-call {}", other),
+        }
+    }
+    fn conc_snap(n: &Node<u64, i64, u64>) -> String {
+        let mut s = format!("[{} adj", n.key());
+        for e in n.iter() { s.push_str(&format!("({}>{}:{})", e.source().key(), e.target().key(), e.value())); }
+        s.push(']');
+        s
     }
     include!("conc.rs");
 }
